@@ -58,6 +58,8 @@ class FakePickle:
     @classmethod
     def loads(cls, data, *a, **k):
         cls.calls.append(bytes(data))
+        if b"vp_module_that_is_not_installed" in bytes(data):
+            raise ModuleNotFoundError("No module named 'vp_module_that_is_not_installed'")      # what the real loads would do
         return ("vp-not-loaded", len(data))
 
 
@@ -105,10 +107,27 @@ def read_json_docs(path):
     return docs
 
 
+LEAKY = [b"cvp_module_that_is_not_installed\nthing\n.", b"cvp_module_that_is_not_installed\nthing\n)R.",
+         b"\x80\x02]q\x00cvp_module_that_is_not_installed\nK\nq\x01a."]
+
+
+def accepted_load_that_fails(ctx, mods, i):
+    """History for the faces that follow: a pickle is *accepted* at a lenient threshold and its unpickling then fails on its
+    own (module not installed).  Whatever that leaves behind must not change how later files are judged."""
+    f, analysis, loader, cli, fickling, U = mods
+    for thr in ("OVERTLY_MALICIOUS", "LIKELY_UNSAFE"):
+        try:
+            loader.load(io.BytesIO(LEAKY[i % len(LEAKY)]), max_acceptable_severity=getattr(analysis.Severity, thr))
+        except BaseException:
+            ctx.agg.count("accepted_loads_that_failed")
+
+
 def check_file(ctx, mods, label, parts, opts):
     f, analysis, loader, cli, fickling, U = mods
     agg = ctx.agg
     data = b"".join(parts)
+    if int(h(data)[:2], 16) % 3 == 0:
+        accepted_load_that_fails(ctx, mods, len(data))
     key = h(data + repr(sorted(opts.items())).encode())
     # independent per-pickle severities
     sevs, results = [], []
